@@ -321,6 +321,8 @@ class MockSocket:
         self.closed = False
         self.sent = []  # (t, data, addr)
         self.options = set()
+        self.fail_sends = []  # datagram contents whose next sendto raises OSError (harness-armed)
+        self.refused = []
 
     def settimeout(self, t):
         self.timeout = t
@@ -334,6 +336,11 @@ class MockSocket:
     def sendto(self, data, addr):
         if self.closed:
             raise OSError("socket closed")
+        if self.fail_sends and self.fail_sends[0] == bytes(data):
+            # the OS refuses this one datagram (no route at that instant)
+            self.fail_sends.pop(0)
+            self.refused.append(bytes(data))
+            raise OSError(101, "Network is unreachable")
         if addr[0] in ("<broadcast>", "255.255.255.255") and (socket.SOL_SOCKET, socket.SO_BROADCAST, 1) not in self.options:
             raise PermissionError(13, "Permission denied")  # what the OS says without SO_BROADCAST
         self.sent.append((self.net.sched.now, bytes(data), tuple(addr[:2])))
